@@ -23,7 +23,14 @@ canonical JSON compared with the implementation's bytes (sample + every original
 that Go's re-serialisation of each unedited original loses no member (marshal_lossless_on).
 Correspondence: Digest/Envelope.v (extracted) run on the observed abstraction (structural verdict,
 header digest, canonical bytes, H given as the hashlib table) must return the implementation's
-verdict class and the implementation's recalculated digest."""
+verdict class and the implementation's recalculated digest.
+Correspondence of the canonicaliser of the `_real` theorems (stream real-canon): Digest/Link.real_canon
+(extracted, wire op `c08 realcanon`) on json.Marshal(parsed document) must give byte for byte the
+canonical JSON the implementation hashes - for every original (there also: hashlib's sha256 of the
+MODEL's bytes must be the value the implementation's own Envelope.Digest() answers, `c08 hashed`) and
+for every edited document observed in detail; each such document must lie in the theorems' domain
+(in_domain; outside = a float failing C07's float premise or a string that is not clean UTF-8:
+counted, not compared)."""
 import glob
 import hashlib
 from fractions import Fraction
@@ -31,7 +38,10 @@ from fractions import Fraction
 from vlib import *
 import calcgen as cg
 
-TRUSTED = ["hypotheses of the theorems (premises, not proved here): canonical JSON invariant under and injective up to norm (C07)",
+TRUSTED = ["the premises of the generic theorems (canonical JSON invariant under and injective up to norm) are discharged for "
+           "Digest/Link.real_canon = C07's model of c14n on the domain in_domain (theorems ..._real); real_canon is tied to the "
+           "bytes the implementation hashes by the stream real-canon (differential, not proved); C07's float premise (strconv) "
+           "is part of the domain",
            "not proved, established by the sweep (search): json.Marshal of the parsed document loses no schema-defined member "
            "(marshal_lossless_on) and every Validate method is what `structural` abstracts",
            "modelling decision: logical content = the PARSED document; members unknown to the Go type and a `$regime` equal to the "
@@ -562,6 +572,7 @@ def run(c):
     origs = run_go(["c08 orig " + w(t) for _, t in sources], shards=16)
     good = []
     mlines = []
+    real_cases, real_seen = [], set()     # (source, kind, json.Marshal(parsed doc), canonical bytes Go hashes)
     dropped = 0
     for (name, text), ol in zip(sources, origs):
         o = Obs(parse_wire(ol)[0])
@@ -594,6 +605,9 @@ def run(c):
                 continue
         good.append((name, text, env, o))
         mlines += [(name, "original") + m for m in model_lines(o, with_calc=False)]
+        if o.raw and o.canon and o.raw not in real_seen:
+            real_seen.add(o.raw)
+            real_cases.append((name, "original", o.raw, o.canon))
     c.cov["originals_checked"] = len(good)
     c.cov["generated_dropped_invalid"] = dropped
     if dropped > ngen_ok // 2:
@@ -690,6 +704,9 @@ def run(c):
                 elif b:
                     c.violations_suppressed = getattr(c, "violations_suppressed", 0) + 1
             mlines += [(name, kind) + m for m in model_lines(o)]
+            if o.detail and o.parse == "ok" and o.canon and o.raw and o.raw not in real_seen:
+                real_seen.add(o.raw)
+                real_cases.append((name, kind, o.raw, o.canon))
             if o.detail and o.parse == "ok" and o.canon:
                 if hashlib.sha256(o.canon).hexdigest() != o.sha:
                     c.report("harness sha256 differs from hashlib", {"machinery": "sha"}, no_input=True)
@@ -719,6 +736,51 @@ def run(c):
                 c.report("correspondence broken: Digest/Envelope.v %s gives `%s`, the implementation `%s` (%s, %s)" % (opn, got[:200], expect[:200], name, kind),
                          {"correspondence": "c08:model:" + opn, "case": line, "model": got, "implementation": expect, "source": name}, no_input=True)
     c.cov["go_model_differences"] = mism
+
+    # ---- correspondence of real_canon (the canonicaliser of the `_real` theorems) with the bytes Go hashes ----
+    hashed = {}
+    for (name, text, env, o), hl in zip(good, run_go(["c08 hashed " + w(t) for _, t, _, _ in good], shards=16)):
+        hv = parse_wire(hl)
+        if hv and hv[0] == b"ok":
+            hashed[hv[1]] = (hv[3].decode(), hv[4].decode(), hv[2])
+        else:
+            c.report("Envelope.Digest() of the parsed original %s fails (%s)" % (name, hl[:100]), {"source": name, "envelope": text})
+    rmo = run_oracle(["c08 realcanon " + w(raw) for _, _, raw, _ in real_cases], shards=16)
+    rmism = outside = 0
+    for (name, kind, raw, gocanon), got in zip(real_cases, rmo):
+        rv = parse_wire(got)
+        rv = rv[0] if rv else None
+        if rv and rv[0] == b"outside":
+            outside += 1
+            c.count("real-canon:outside-the-domain(not compared)", 1, hashlib.sha1(raw).hexdigest())
+            continue
+        c.count("real-canon" + (":original" if kind == "original" else ":edited"), 1, hashlib.sha1(raw).hexdigest())
+        bad = None
+        if not rv or rv[0] != b"ok":
+            bad = "the model's reader refuses json.Marshal's text (%s)" % got[:80]
+        elif rv[1] != gocanon:
+            bad = "Digest/Link.real_canon differs from the canonical JSON the implementation hashes"
+        elif rv[2] != 1:
+            bad = "a good value was translated to a document outside in_domain (contradicts every_good_text_is_a_document)"
+        elif kind == "original" and raw in hashed:
+            dv, alg, hc = hashed[raw]
+            c.count("real-canon:sha256(model bytes)=Envelope.Digest()", 1, dv)
+            if alg != "sha256" or hashlib.sha256(rv[1]).hexdigest() != dv:
+                bad = "sha256 over the model's canonical bytes is not the value Envelope.Digest() answers"
+        if rv and rv[0] == b"ok" and len(rv) > 3 and rv[3] != 1:
+            c.count("real-canon:duplicate-member-names-in-json.Marshal-output", 1)
+        if bad:
+            rmism += 1
+            if rmism <= 2:
+                c.report("correspondence broken: %s (%s, %s)" % (bad, name, kind),
+                         {"correspondence": "c08:real_canon", "case": "c08 realcanon " + w(raw), "document": raw,
+                          "model": got[:4000], "implementation": gocanon, "source": name}, no_input=True)
+    c.cov["real_canon_differences"] = rmism
+    c.cov["real_canon_outside_domain"] = outside
+    if real_cases and outside * 2 > len(real_cases):
+        c.report("stream real-canon is vacuous: %d of %d documents are outside the domain of the `_real` theorems" % (outside, len(real_cases)),
+                 {"machinery": "real-canon"}, no_input=True)
+    log("real_canon compared", len(real_cases), round(time.time() - T0, 1))
     c.cov["rule"] = ("sources = every example envelope under **/out/*.json that the code can still parse + generated invoices (calcgen.Gen, with notes/meta) "
                      "enveloped by the implementation; cases = re-encodings of the whole envelope text (shuffled members, whitespace, escapes) and single "
                      "edits of the serialised document enumerated over its JSON tree (kinds in edit_kinds; schema-defined additions from data/schemas); "
